@@ -26,7 +26,7 @@ func init() {
 	})
 	register(&Prop{
 		ID: "C20",
-		Rules: []*Rule{rGrpcFlow, scoped(rDecline, "the decoders of the gRPC code and status types", func(_ *core.Ctx, k string) bool { return containsAny(k, "extgrpc", "status") }), scoped(rCodeGetter, "the gRPC code accessor", func(_ *core.Ctx, k string) bool { return strings.Contains(k, "GetGrpcCode") }), {Name: "R-CODEC", Doc: rCodec.Doc + " (restricted to the gRPC code wrapper and the gRPC status types)", Run: func(c *core.Ctx) {
+		Rules: []*Rule{scoped(rAlwaysWraps, "WrapWithGrpcCode and the status helpers always attach the code they are given", func(_ *core.Ctx, k string) bool { return containsAny(k, "Grpc", "status.") }), rGrpcFlow, scoped(rDecline, "the decoders of the gRPC code and status types", func(_ *core.Ctx, k string) bool { return containsAny(k, "extgrpc", "status") }), scoped(rCodeGetter, "the gRPC code accessor", func(_ *core.Ctx, k string) bool { return strings.Contains(k, "GetGrpcCode") }), {Name: "R-CODEC", Doc: rCodec.Doc + " (restricted to the gRPC code wrapper and the gRPC status types)", Run: func(c *core.Ctx) {
 			runCodec(c, func(cp *codecPair) bool {
 				return strings.Contains(cp.Name, "extgrpc") || strings.Contains(cp.Name, "status.")
 			})
@@ -36,7 +36,7 @@ func init() {
 	})
 	register(&Prop{
 		ID: "C19",
-		Rules: []*Rule{rPassThroughGuard, rLayerGetter, scoped(rOrder, "the hint/detail/link/tag/safe-detail accessors", func(_ *core.Ctx, k string) bool { return !strings.Contains(k, "GetOneLineSource") }), rHintProviders, rDedup, rFlattenSep, rGuardField, scoped(rFormatStored, "the hint and detail constructors", func(_ *core.Ctx, k string) bool { return containsAny(k, "Hint", "Detail", "printf-like") }), scoped(rAlwaysWraps, "the hint/detail/link/key/tag/safe-detail constructors", func(_ *core.Ctx, k string) bool {
+		Rules: []*Rule{scoped(rFormatArg, "a stored hint / link text is printed, never used as a format", func(_ *core.Ctx, k string) bool { return containsAny(k, "hintdetail", "issuelink", "telemetrykeys") }), scoped(rEffect, "the accessors never rewrite the annotation they read", func(_ *core.Ctx, k string) bool { return containsAny(k, "keys", "hint", "detail", "IssueLink", "tags", "telemetry", "SafeDetails") }), rPassThroughGuard, rLayerGetter, scoped(rOrder, "the hint/detail/link/tag/safe-detail accessors", func(_ *core.Ctx, k string) bool { return !strings.Contains(k, "GetOneLineSource") }), rHintProviders, rDedup, rFlattenSep, rGuardField, scoped(rFormatStored, "the hint and detail constructors", func(_ *core.Ctx, k string) bool { return containsAny(k, "Hint", "Detail", "printf-like") }), scoped(rAlwaysWraps, "the hint/detail/link/key/tag/safe-detail constructors", func(_ *core.Ctx, k string) bool {
 			return containsAny(k, "WithHint", "WithDetail", "WithIssueLink", "WithTelemetry", "WithContextTags", "WithSafeDetails", "UnimplementedError")
 		}), scoped(rStdIdentity, "the accessor packages", func(_ *core.Ctx, k string) bool {
 			return containsAny(k, "hintdetail.", "issuelink.", "telemetrykeys.", "contexttags.", "safedetails.", "errbase.GetAllSafeDetails")
@@ -67,21 +67,21 @@ func init() {
 	})
 	register(&Prop{
 		ID:    "C11",
-		Rules: []*Rule{rFramePerEntry, rCodec, rPayloadDecoder, rGenericPath, rListRoundTrip, rDecline, rRegType, rErrnoTable, rStackSlot, rStackWhole, rStackParse, rStackEmpty, rTreeRec, rOneParser, rSiblingGuard, rCodeGetter},
+		Rules: []*Rule{rOSPredicate, rFramePerEntry, rCodec, rPayloadDecoder, rGenericPath, rListRoundTrip, rDecline, rRegType, rErrnoTable, rStackSlot, rStackWhole, rStackParse, rStackEmpty, rTreeRec, rOneParser, rSiblingGuard, rCodeGetter},
 		Explain: "Decides, for every registered type key, that each annotation field has a wire slot that the writer fills from that same field and the reader restores into that same field (payload members, positional safe details, message), that decoders rebuild the key's own type (so flag types recognised by Go type survive), that errno predicates travel in matching pairs, and that the printed-stack slot is re-parsed for the same key set by both stack accessors. " +
 			"NOT decided: equality of re-parsed frames (text parsing), tag values rendered through ValueStr, OS predicates on foreign platforms beyond the pairing.",
 		Trusted: []string{"go/ssa", "gogo/protobuf marshalling of the payload messages"},
 	})
 	register(&Prop{
 		ID:    "C01",
-		Rules: []*Rule{rDecodeReadonly, rSpecialText, scoped(rCodec, "fields that Error() reads, and the cause", codecTextFields), rOpaque, rDecodeResult, rElide, rTreeRec, rRegType, rSep, scoped(rShape, "the opaque types (what an unknowing process renders)", func(_ *core.Ctx, k string) bool { return strings.Contains(k, "opaque") }), scoped(rWalkMulti, "the encoder walk", func(_ *core.Ctx, k string) bool { return containsAny(k, "EncodeError", "is a leaf for UnwrapOnce") }), rSiblingGuard, rLoopAlias, rWriteFaithful, rErrnoTable, scoped(rFormatArg, "encoders, decoders and the opaque types", func(_ *core.Ctx, k string) bool { return containsAny(k, ".decode", ".encode", "opaque") })},
+		Rules: []*Rule{scoped(rEffect, "encoding and decoding are functions of their argument: no package-level memo in the codec path", func(_ *core.Ctx, k string) bool { return containsAny(k, "ncode", "ecode", "extractPrefix") }), rDecodeReadonly, rSpecialText, scoped(rCodec, "fields that Error() reads, and the cause", codecTextFields), rOpaque, rDecodeResult, rElide, rTreeRec, rRegType, rSep, scoped(rShape, "the opaque types (what an unknowing process renders)", func(_ *core.Ctx, k string) bool { return strings.Contains(k, "opaque") }), scoped(rWalkMulti, "the encoder walk", func(_ *core.Ctx, k string) bool { return containsAny(k, "EncodeError", "is a leaf for UnwrapOnce") }), rSiblingGuard, rLoopAlias, rWriteFaithful, rErrnoTable, scoped(rFormatArg, "encoders, decoders and the opaque types", func(_ *core.Ctx, k string) bool { return containsAny(k, ".decode", ".encode", "opaque") })},
 		Explain: "Decides the structural necessary conditions of text/shape preservation: writer/reader slot agreement for every field that Error() reads (R-CODEC), verbatim keep-and-re-emit of message, details, message type and causes by unknowing processes (R-OPAQUE-TRANSPORT), cause/branch recursion on both sides in index order with no branch dropped for any count (R-TREE-RECURSION, R-WALK-MULTI), decoders rebuilding the key's type (no drift after hop 1), one separator constant removed exactly (R-SEP), and Error()/formatter shape agreement. " +
 			"NOT decided: equality of Error() strings for all messages (in particular suffix-matching ambiguity in extractPrefix for messages containing \": \"), protobuf marshalling itself.",
 		Trusted: []string{"go/ssa", "gogo/protobuf"},
 	})
 	register(&Prop{
 		ID:    "C02",
-		Rules: []*Rule{rTypeNameRaw, rKeyMarker, scoped(rCodec, "identity-relevant fields: those Error() reads, explicit marks, domains", codecIdentityFields), rRegType, rDecodeResult, rDecline, rOpaque, rTypeKeyWho, rMarkLayers, rTreeRec, rSep, scoped(rShape, "the opaque types (the text an unknowing process contributes to identity)", func(_ *core.Ctx, k string) bool { return strings.Contains(k, "opaque") }), scoped(rFormatArg, "encoders, decoders and the opaque types", func(_ *core.Ctx, k string) bool { return containsAny(k, ".decode", ".encode", "opaque") }), scoped(rStdIdentity, "identity tests", func(_ *core.Ctx, k string) bool { return containsAny(k, "errors.Is", "errors.As") }), scoped(rAlwaysWraps, "Mark: the portable mark is always attached", func(_ *core.Ctx, k string) bool { return strings.Contains(k, "Mark(") })},
+		Rules: []*Rule{rMigration, rTypeNameRaw, rKeyMarker, scoped(rCodec, "identity-relevant fields: those Error() reads, explicit marks, domains", codecIdentityFields), rRegType, rDecodeResult, rDecline, rOpaque, rTypeKeyWho, rMarkLayers, rTreeRec, rSep, scoped(rShape, "the opaque types (the text an unknowing process contributes to identity)", func(_ *core.Ctx, k string) bool { return strings.Contains(k, "opaque") }), scoped(rFormatArg, "encoders, decoders and the opaque types", func(_ *core.Ctx, k string) bool { return containsAny(k, ".decode", ".encode", "opaque") }), scoped(rStdIdentity, "identity tests", func(_ *core.Ctx, k string) bool { return containsAny(k, "errors.Is", "errors.As") }), scoped(rAlwaysWraps, "Mark: the portable mark is always attached", func(_ *core.Ctx, k string) bool { return strings.Contains(k, "Mark(") })},
 		Explain: "Identity = (Error() text, chain of (family name, extension)). Decides that every identity-relevant field has slot agreement (incl. withMark's explicit mark and withDomain's extension), decoders rebuild the key's type, unknowing hops keep and re-emit the received names, every consumer of identity goes through getTypeDetails with the full mark where the extension matters, and a mark has one full type mark per layer. " +
 			"NOT decided: that text is preserved (C01's undecided part), semantics of foreign Is methods, 'never starts matching' over all pairs.",
 		Trusted: []string{"go/ssa"},
@@ -97,7 +97,7 @@ func init() {
 	})
 	register(&Prop{
 		ID: "C07",
-		Rules: []*Rule{rDomainGetter, scoped(rWriteFaithful, "the renderer gives back every newline it takes (Handled computes its message through it)", func(_ *core.Ctx, k string) bool { return strings.Contains(k, "separator") }), scoped(rDetailPrint, "the hidden errors of barriers and secondary-error wrappers are printed, as values, in the verbose rendering", func(_ *core.Ctx, k string) bool { return containsAny(k, "maskedErr", "secondaryError") }), rHide, rHideKeep, rBarrierCtor, rWrapDual, rErrRefs, rFormatArg, rSecondaryAttach, scoped(rRegType, "the barrier and secondary-error types", func(_ *core.Ctx, k string) bool { return containsAny(k, "barriers.", "secondary.") }), {Name: "R-CODEC", Doc: rCodec.Doc + " (restricted to the barrier and secondary-error types)", Run: func(c *core.Ctx) {
+		Rules: []*Rule{forwardScoped("Handled*", "Opaque", "HandleAsAssertionFailure*", "NewAssertionErrorWithWrappedErrf", "WithSecondaryError", "CombineErrors", "Mark"), rDomainGetter, scoped(rWriteFaithful, "the renderer gives back every newline it takes (Handled computes its message through it)", func(_ *core.Ctx, k string) bool { return strings.Contains(k, "separator") }), scoped(rDetailPrint, "the hidden errors of barriers and secondary-error wrappers are printed, as values, in the verbose rendering", func(_ *core.Ctx, k string) bool { return containsAny(k, "maskedErr", "secondaryError") }), rHide, rHideKeep, rBarrierCtor, rWrapDual, rErrRefs, rFormatArg, rSecondaryAttach, scoped(rRegType, "the barrier and secondary-error types", func(_ *core.Ctx, k string) bool { return containsAny(k, "barriers.", "secondary.") }), {Name: "R-CODEC", Doc: rCodec.Doc + " (restricted to the barrier and secondary-error types)", Run: func(c *core.Ctx) {
 			runCodec(c, func(cp *codecPair) bool { return containsAny(cp.Name, "barriers.", "secondary.") })
 		}}, {Name: "R-TAINT/redactable", Doc: "the hidden message of a barrier is carried as a redactable string: conversions to redact.RedactableString in package barriers (and what its decoders receive) only from strings that were built as redactable - a plain string relabelled as redactable, or a redactable one escaped again, changes the message text after a hop", Run: func(c *core.Ctx) {
 			runTaintFiltered(c, func(s *Sink) bool { return s.Mode == "redactable" && strings.Contains(s.Name, "barriers.") })
@@ -110,7 +110,7 @@ func init() {
 	})
 	register(&Prop{
 		ID: "C06",
-		Rules: []*Rule{rEsc, rBufFlag, rWriteFaithful, rVerbDispatch, rRedactableOps, {Name: "R-TAINT/redactable", Doc: "the S3 sub-class of R-TAINT that concerns well-formedness: every conversion of a plain string/[]byte to redact.RedactableString/RedactableBytes takes a value that was BUILT as a redactable string (redact.Sprint*/Redact(), a typed RedactableString input, or the wire slot an encoder fills from one) - never a merely safe plain string, whose marker runes would not be escaped",
+		Rules: []*Rule{scoped(rFmtDelegate, "the Formattable adapter and the module types route every verb through the one dispatcher (no fast path that writes Error() directly)", nil), rEsc, rBufFlag, rWriteFaithful, rVerbDispatch, rRedactableOps, {Name: "R-TAINT/redactable", Doc: "the S3 sub-class of R-TAINT that concerns well-formedness: every conversion of a plain string/[]byte to redact.RedactableString/RedactableBytes takes a value that was BUILT as a redactable string (redact.Sprint*/Redact(), a typed RedactableString input, or the wire slot an encoder fills from one) - never a merely safe plain string, whose marker runes would not be escaped",
 			Run: func(c *core.Ctx) { runTaintFiltered(c, func(s *Sink) bool { return s.Mode == "redactable" }) }}},
 		Explain: "Decides the structural half of well-formedness and of the refusal clause: unsafe layer text reaches the redactable buffer only escaped-and-enclosed (R-ESC); the 'already redactable' flag is set only for text produced by the safe printer (R-BUFFLAG); plain strings are never re-labelled as redactable without escaping; the verb dispatch refuses %q/%x/%X/%#v under redactable output and honours width/precision in every case (exhaustive evaluation of the guard predicates). " +
 			"NOT decided: balance/non-nesting/per-line balance for arbitrary input bytes (the redact package's escaping and state.Write's newline bookkeeping are loop arithmetic over runtime bytes), and marker-stripping congruence with the plain rendering.",
@@ -155,7 +155,7 @@ func init() {
 	})
 	register(&Prop{
 		ID: "C08",
-		Rules: []*Rule{rKeyMarker, rCmpGuard, {Name: "R-BOUNDS", Doc: rBounds.Doc + " (restricted to package markers: equalMarks' lock-step indexing is also the 'difference in chain length makes them different' clause)",
+		Rules: []*Rule{scoped(rEffect, "Is/IsAny are pure functions of their arguments: no package-level memo of marks", func(_ *core.Ctx, k string) bool { return containsAny(k, "markers.", "getMark", "Mark") }), rKeyMarker, rCmpGuard, {Name: "R-BOUNDS", Doc: rBounds.Doc + " (restricted to package markers: equalMarks' lock-step indexing is also the 'difference in chain length makes them different' clause)",
 			Run: func(c *core.Ctx) {
 				runBounds(c, func(rel, fn string) bool { return rel == "markers" })
 			}}, rRecover, rNilSafe, rMarkLayers, rCtorCause, rWalkCurrent, rIsMethod, scoped(rWalkMulti, "Is and IsAny range over errbase.UnwrapMulti itself (no derived collection keyed by error values, which may be unhashable)", func(_ *core.Ctx, k string) bool { return strings.Contains(k, "markers.Is") }), rMemo, scoped(rAlwaysWraps, "Mark", func(_ *core.Ctx, k string) bool { return strings.Contains(k, "Mark(") }), scoped(rStdIdentity, "identity tests", func(_ *core.Ctx, k string) bool { return containsAny(k, "errors.Is", "errors.As") }), {Name: "R-LOOP-EXITS", Doc: rLoopExits.Doc, Run: func(c *core.Ctx) { runLoopExits(c, map[string]bool{"markers.Is": true, "markers.IsAny": true}) }}},
@@ -165,7 +165,7 @@ func init() {
 	})
 	register(&Prop{
 		ID: "C16",
-		Rules: []*Rule{scoped(rJoinNode, "JoinWithDepth always goes through WithStackDepth: no shortcut returns an argument without the stack of the call", func(_ *core.Ctx, k string) bool { return strings.Contains(k, "JoinWithDepth") }), rDepth, rMemo, rFuncName, rStackWhole, scoped(rAlwaysWraps, "the stack-capturing constructors: a stack is captured at every call, never skipped because of what the error already carries", func(_ *core.Ctx, k string) bool {
+		Rules: []*Rule{rStackParse, scoped(rJoinNode, "JoinWithDepth always goes through WithStackDepth: no shortcut returns an argument without the stack of the call", func(_ *core.Ctx, k string) bool { return strings.Contains(k, "JoinWithDepth") }), rDepth, rMemo, rFuncName, rStackWhole, scoped(rAlwaysWraps, "the stack-capturing constructors: a stack is captured at every call, never skipped because of what the error already carries", func(_ *core.Ctx, k string) bool {
 			return containsAny(k, "WithStack", "Wrap", "AssertionFail", "AssertionError", "HandleAsAssertion")
 		}), scoped(rBarrierCtor, "the assertion-failure constructors", func(_ *core.Ctx, k string) bool { return containsAny(k, "Assertion") }), scoped(rStackEmpty, "the one-line source parser", func(_ *core.Ctx, k string) bool { return strings.Contains(k, "getOneLineSourceFromPrintedStack") }), rOrderOneLine, scoped(rOneParser, "GetOneLineSource", func(_ *core.Ctx, k string) bool {
 			return containsAny(k, "GetOneLineSource", "getOneLineSourceFromPkgStack")
